@@ -32,8 +32,9 @@ class _Cexptrk_Potential_Function(object):
     label = func._potential_form_tuple.signature.label
     try:
       self._local_symbol_table.functions[label] = func
-    except cexprtk._exceptions.NameShadowException as e:
-      msg = "Name clash for potential-form '{}': {}".format(label, str(e))
+    except (KeyError, cexprtk._exceptions.NameShadowException) as e:
+      # KeyError: the name is taken by a parameter, a built-in constant or another function of this expression
+      msg = "Name clash for potential-form '{}': {}".format(label, e.args[0] if e.args else e)
       raise Potential_Form_Exception(msg)
       
 
